@@ -97,6 +97,21 @@ func NewSync(lsys ipld.LinkSystem, blockHook func(peer.ID, cid.Cid), options ...
 	return s
 }
 
+// namespacedClient asks the libp2phttp host for a client for the peer. What
+// the peer answers when asked for its protocols is not under our control: a
+// panic while dealing with it is turned into an error, and the lock is
+// released whatever happens.
+func (s *Sync) namespacedClient(peerInfo peer.AddrInfo, rtOpts ...libp2phttp.RoundTripperOption) (cli http.Client, err error) {
+	s.clientHostMutex.Lock()
+	defer s.clientHostMutex.Unlock()
+	defer func() {
+		if r := recover(); r != nil {
+			err = fmt.Errorf("cannot use libp2phttp protocol information from peer: %v", r)
+		}
+	}()
+	return s.clientHost.NamespacedClient(ProtocolID, peerInfo, rtOpts...)
+}
+
 // NewSyncer creates a new Syncer to use for a single sync operation against a
 // peer. A value for peerInfo.ID is optional for the HTTP transport.
 func (s *Sync) NewSyncer(peerInfo peer.AddrInfo) (*Syncer, error) {
@@ -124,9 +139,7 @@ func (s *Sync) NewSyncer(peerInfo peer.AddrInfo) (*Syncer, error) {
 	}
 
 	verifhook.LockWait("clienthost.lock", nil, &s.clientHostMutex)
-	s.clientHostMutex.Lock()
-	cli, err = s.clientHost.NamespacedClient(ProtocolID, peerInfo, rtOpts...)
-	s.clientHostMutex.Unlock()
+	cli, err = s.namespacedClient(peerInfo, rtOpts...)
 	var plainHTTP bool
 	if err != nil {
 		if strings.Contains(err.Error(), "limit exceeded") {
